@@ -144,6 +144,26 @@ func (c *SCtx) lookupName(name string) *Val {
 	return nil
 }
 
+func (c *SCtx) lookupNameQuiet(name string) *Val {
+	saved := c.ex.specErrs
+	v := c.lookupName(name)
+	c.ex.specErrs = saved
+	return v
+}
+
+func (p *Prog) pkgPathByName(name string) string {
+	best := ""
+	for _, sp := range p.ssaProg.AllPackages() {
+		if sp.Pkg.Path() == name {
+			return name
+		}
+		if sp.Pkg.Name() == name && (best == "" || len(sp.Pkg.Path()) < len(best)) {
+			best = sp.Pkg.Path()
+		}
+	}
+	return best
+}
+
 func (c *SCtx) pkgName(pkgPath, name string) *Val {
 	ex := c.ex
 	for _, sp := range ex.p.ssaProg.AllPackages() {
@@ -210,6 +230,26 @@ func (c *SCtx) addr(e *SExpr) *Val {
 		}
 		if base == nil || base.K != KPtr {
 			return nil
+		}
+		if len(base.Tg) == 0 && base.Typ != nil {
+			// selection through a nil pointer: the value is unspecified (a guard must exclude it)
+			if pt, ok := under(base.Typ).(*types.Pointer); ok {
+				if ex.dummies == nil {
+					ex.dummies = map[string]*Obj{}
+				}
+				k := typeKey(pt.Elem())
+				d := ex.dummies[k]
+				if d == nil {
+					d = ex.newObj("unspecified", pt.Elem())
+					d.Symbolic = true
+					d.Fresh = true
+					if ex.isOpaqueStruct(pt.Elem()) {
+						d.Opaque = true
+					}
+					ex.dummies[k] = d
+				}
+				base = &Val{K: KPtr, Typ: base.Typ, IsNil: base.IsNil, Tg: []Target{{G: True, Loc: Loc{Obj: d}}}}
+			}
 		}
 		r := &Val{K: KPtr, IsNil: False}
 		for _, t := range base.Tg {
@@ -417,6 +457,17 @@ func (c *SCtx) eval(e *SExpr) *Val {
 		}
 		return ex.iteNoName(g, a, b)
 	case "sel":
+		// package-qualified name
+		if e.Args[0].Op == "id" {
+			if _, isVal := c.env[e.Args[0].Name]; !isVal {
+				if pp := ex.p.pkgPathByName(e.Args[0].Name); pp != "" && c.lookupNameQuiet(e.Args[0].Name) == nil {
+					if v := c.pkgName(pp, e.Name); v != nil {
+						return v
+					}
+					return c.fail("unknown package member %s.%s", e.Args[0].Name, e.Name)
+				}
+			}
+		}
 		// value selection on struct values first
 		if p := c.addr(e); p != nil {
 			t := c.typeOfPtrElem(p)
@@ -814,4 +865,48 @@ func (c *SCtx) evalCall(e *SExpr) *Val {
 		return c2.eval(pf.Body)
 	}
 	return c.fail("unknown function %s in specification", e.Name)
+}
+
+type conjunct struct {
+	T    Term
+	Text string
+}
+
+// conjuncts evaluates a boolean specification expression as a list of
+// conjuncts (flattening && and unfolding pure functions whose body is a
+// conjunction) so that each becomes its own obligation.
+func (c *SCtx) conjuncts(e *SExpr) []conjunct {
+	if e.Op == "bin" && e.Name == "&&" {
+		return append(c.conjuncts(e.Args[0]), c.conjuncts(e.Args[1])...)
+	}
+	if e.Op == "call" {
+		if pf, ok := c.ex.p.cs.Pures[e.Name]; ok && len(pf.Params) == len(e.Args) && pf.Body.Op == "bin" && pf.Body.Name == "&&" {
+			env := map[string]*Val{}
+			for k, v := range c.env {
+				if strings.Contains(v.T.S, "!q") {
+					env[k] = v
+				}
+			}
+			for i, p := range pf.Params {
+				a := c.eval(e.Args[i])
+				if a.K == KUntyped && pf.PTypes[i] != "" && isBasicTypeName(pf.PTypes[i]) {
+					bt := c.ex.p.basicType(pf.PTypes[i])
+					if w, _, ok := intWidth(bt); ok {
+						a = &Val{K: KScalar, Typ: bt, T: BVConstBig(a.C, w)}
+					}
+				}
+				env[p] = a
+			}
+			c2 := &SCtx{ex: c.ex, pkg: pf.Pkg, env: env, cur: c.cur, old: c.old, inOld: c.inOld}
+			if c2.pkg == "" {
+				c2.pkg = c.pkg
+			}
+			cs := c2.conjuncts(pf.Body)
+			for i := range cs {
+				cs[i].Text = e.Name + ": " + cs[i].Text
+			}
+			return cs
+		}
+	}
+	return []conjunct{{c.bool(e), e.String()}}
 }
